@@ -355,6 +355,45 @@ def run_remote(ctx, idx, rng, tmp):
             ctx.check("c14.remote_nested_followed", f1,
                       lambda: dict(case, features_basin=fb),
                       message="http basin of a remote dataset not followed")
+        # mixed formats: a LOCAL file whose remote basins point at the served files.  The
+        # datasets reached through the network format must still not follow their file basins.
+        l0 = tmp / "l0.rtdc"
+        which = int(rng.integers(0, 3))
+        urls = [[url1], [url0], [url0, url1]][which]
+        mk(l0, 5, [{"basin_name": f"remote {q}", "basin_type": "remote", "basin_format": "http",
+                    "basin_locs": [u]} for q, u in enumerate(urls)])
+        case["local_root_remote_basins"] = ["r1", "r0", "r0+r1"][which]
+        Rec.opens.clear()
+        try:
+            with warnings.catch_warnings():
+                warnings.simplefilter("ignore")
+                with dclab.new_dataset(l0) as dm:
+                    m8, m9 = "userdef8" in dm, "userdef9" in dm
+                    m0, m1 = "userdef0" in dm, "userdef1" in dm
+                    fbm = list(dm.features_basin)
+                    for j, have in ((0, m0), (1, m1)):
+                        if have:
+                            vj = np.asarray(dm[f"userdef{j}"][:])
+                            ctx.check("c14.data_provenance",
+                                      np.array_equal(vj, 1000.0 * j + np.arange(n)),
+                                      lambda: dict(case, got=vj, feature=f"userdef{j}"),
+                                      message="http basin data wrong (local root)")
+        except Exception as exc:
+            if real_sockets and is_transport_timeout(exc):
+                ctx.count("skipped_transport_timeout")
+                return case
+            raise
+        local_opened = [o for o in Rec.opens if "canary" in o]
+        ctx.check("c14.remote_isolation", not (m8 or m9 or local_opened),
+                  lambda: dict(case, userdef8=m8, userdef9=m9, opened=local_opened,
+                               features_basin=fbm),
+                  message=f"network dataset below a local file reached local basins: "
+                          f"offered={m8, m9}, opened={local_opened}")
+        exp1 = which in (0, 2) or nested
+        exp0 = which in (1, 2)
+        ctx.check("c14.remote_nested_followed", (m1 == exp1) and (m0 == exp0),
+                  lambda: dict(case, userdef0=m0, userdef1=m1, features_basin=fbm),
+                  message="remote basins of a local file not followed as expected")
         # the same bytes opened locally may follow the file basin
         with warnings.catch_warnings():
             warnings.simplefilter("ignore")
